@@ -31,9 +31,12 @@ var wrappers = []string{"flat", "for", "if", "with", "autoescape", "ifchanged", 
 func build(wrapper, nodes string) (files map[string]string, expected string, ticks int) {
 	var body strings.Builder
 	for i, n := range nodes {
-		if n == 'T' {
+		switch n {
+		case 'T':
 			fmt.Fprintf(&body, "t%d;", i)
-		} else {
+		case 'B':
+			body.WriteString(bigText(i))
+		default:
 			body.WriteString("{{ tick() }}")
 		}
 	}
@@ -42,9 +45,12 @@ func build(wrapper, nodes string) (files map[string]string, expected string, tic
 	render := func() string {
 		var o strings.Builder
 		for i, n := range nodes {
-			if n == 'T' {
+			switch n {
+			case 'T':
 				fmt.Fprintf(&o, "t%d;", i)
-			} else {
+			case 'B':
+				o.WriteString(bigText(i))
+			default:
 				tickNo++
 				fmt.Fprintf(&o, "k%d.", tickNo)
 			}
@@ -132,6 +138,11 @@ func build(wrapper, nodes string) (files map[string]string, expected string, tic
 	return files, expected, tickNo
 }
 
+// bigText is a literal text node larger than any buffer size an implementation is likely to use internally (5000 bytes)
+func bigText(i int) string {
+	return fmt.Sprintf("big%d<", i) + strings.Repeat("0123456789", 500) + ">"
+}
+
 type faultWriter struct {
 	buf     []byte
 	calls   int
@@ -186,7 +197,8 @@ func (c *Case) Exec(t *eng.T) {
 	if c.Fault != "none" {
 		t.Nontrivial()
 	}
-	mkctx := func() pongo2.Context {
+	var mkctx func() pongo2.Context
+	mkctx = func() pongo2.Context {
 		n := 0
 		return pongo2.Context{
 			"two": []int{1, 2}, "yes": true, "incname": "inc",
@@ -200,6 +212,16 @@ func (c *Case) Exec(t *eng.T) {
 		}
 	}
 	wantFail := c.Fault == "tick" && c.At <= ticks
+	if c.Fault == "badctx" {
+		// a context key that is not an identifier: every entry point must refuse it, whatever the template contains
+		inner := mkctx
+		mkctx = func() pongo2.Context {
+			x := inner()
+			x["user-name"] = "x"
+			return x
+		}
+		wantFail = true
+	}
 	type res struct {
 		name string
 		out  string
@@ -305,6 +327,9 @@ func (c *Case) Exec(t *eng.T) {
 		if eu.err == nil {
 			t.Fail(key("error-lost"), "%s: ExecuteWriterUnbuffered returns no error although execution fails", c.ID())
 		}
+		if c.Fault == "badctx" && eu.out != "" {
+			t.Fail(key("output-for-invalid-context"), "%s: ExecuteWriterUnbuffered wrote %q although the context is invalid", c.ID(), head(eu.out))
+		}
 		if !strings.HasPrefix(expected, eu.out) {
 			t.Fail(key("not-a-prefix"), "%s: ExecuteWriterUnbuffered wrote %q, not a leading part of the successful output %q", c.ID(), eu.out, expected)
 		}
@@ -335,19 +360,27 @@ func run(r *eng.Runner) {
 	if !r.Quick() {
 		maxNodes = 6
 	}
-	r.Group("faults", "c14.case", fmt.Sprintf("all programs of 1..%d output nodes (text | failing-capable call) in %d wrappers x {no fault, every tick position, every Write position (error, short write)} x 4 entry points", maxNodes, len(wrappers)))
+	r.Group("faults", "c14.case", fmt.Sprintf("all programs of 1..%d output nodes (text | failing-capable call | at most one 5000-byte text) in %d wrappers x {no fault, a context with a non-identifier key, every tick position, every Write position (error, short write)} x 4 entry points", maxNodes, len(wrappers)))
 	for _, w := range wrappers {
-		enum.Seqs(2, maxNodes, func(idx []int) bool {
+		enum.Seqs(3, maxNodes, func(idx []int) bool {
 			if len(idx) == 0 {
 				return true
 			}
 			var nb strings.Builder
+			nbig := 0
 			for _, i := range idx {
-				nb.WriteByte("TK"[i])
+				nb.WriteByte("TKB"[i])
+				if i == 2 {
+					nbig++
+				}
+			}
+			if nbig > 1 {
+				return true // at most one big text node per program
 			}
 			nodes := nb.String()
 			_, _, ticks := build(w, nodes)
 			r.Do(&Case{Wrapper: w, Nodes: nodes, Fault: "none"})
+			r.Do(&Case{Wrapper: w, Nodes: nodes, Fault: "badctx"})
 			for k := 1; k <= ticks; k++ {
 				r.Do(&Case{Wrapper: w, Nodes: nodes, Fault: "tick", At: k})
 			}
@@ -374,4 +407,11 @@ func init() {
 		},
 		Run: run,
 	})
+}
+
+func head(s string) string {
+	if len(s) > 120 {
+		return s[:120] + "..."
+	}
+	return s
 }
